@@ -185,6 +185,27 @@ def cut_scenarios(shapes, steps_of, all_compositions_upto=0):
                     yield sc
 
 
+def long_line_scenarios(limit=256):
+    """A multi-line reply whose continuation line is longer than the stream reader's line limit (scaled down from
+    asyncio's 64 KiB to `limit`), delivered whole and cut at several places inside and around the long line.  The
+    client may refuse such a reply (protocol error) - but what it does must not depend on where the stream is cut."""
+    sess = {'mode': 'file', 'restart': False, 'user': [], 'pass': [], 'path': [97]}
+    steps = happy_replies(sess['mode'], sess.get('restart'))
+    for i in (0, len(steps) - 1):
+        name, code, text = steps[i]
+        d = b'%03d' % code
+        long_reply = d + b'-x\r\n' + b'y' * (limit + 44) + b'\r\n' + d + b' ' + bytes(text) + b'\r\n'
+        base = happy_scenario(sess)
+        base['replies'][i]['b'] = list(long_reply)
+        base['reader_limit'] = limit
+        n = len(long_reply)
+        lead = [len(r['b']) for r in base['replies'][:i]]
+        for v in [[n]] + [[k, n - k] for k in (3, 7, 8, 100, limit - 1, limit, limit + 1, limit + 30, n - 12, n - 7)] + [[1] * n]:
+            sc = json.loads(json.dumps(base))
+            sc['cuts'] = lead + v
+            yield sc
+
+
 def strip_cuts(sc):
     c = {k: v for k, v in sc.items() if k not in ('cuts', 'origin_detail')}
     return c
